@@ -92,6 +92,7 @@ static void do_call(actx *c, vrng *r, int a)
     bool ret = false;
     bbuf *bb;
     callcount[a]++;
+    if (VA.verbose >= 2) fprintf(stderr, "  call %s (input %zu bytes, error_flags before: %s)\n", ANAME[a], c->n, verr_name((int)c->p->error_flags));
     vb_printf(&c->trace, "%s", ANAME[a]);
     size_t used_before = p->buffer_used;
     bool resetting = (a == A_INIT_OBJ || a == A_INIT_ARR || a == A_RESET || a == A_VERIFY || a == A_TO_STRING || a == A_TO_STRING_NULL || a == A_PRINT);
@@ -330,6 +331,7 @@ static void one_case(vrng *r, uint64_t global)
     }
     if (!provided_p) { c.p->state = c.st; c.p->max_depth = (uint_fast8_t)c.max_depth; }
     set_input(&c, c.doc0.p, c.doc0.n);
+    if (VA.verbose) { vbuf d; memset(&d, 0, sizeof d); vb_hex(&d, c.doc0.p, c.doc0.n, 400); fprintf(stderr, "case: %s-rooted init, max_depth=%d, fill=%u, input %zu bytes: %s\n", vkind_name(root), c.max_depth, fill, c.doc0.n, vb_cstr(&d)); vb_free(&d); }
     /* ---- calls ---- */
     no_retarget = true;
     do_call(&c, r, root == K_OBJ ? A_INIT_OBJ : A_INIT_ARR);   /* init on the prepared bytes, whatever it returns */
